@@ -233,6 +233,20 @@ def rule_R3(chk, repo, rid='C05.R3'):
                 lvar = n.value.elts[0].id
     if store is None:
         raise AnalysisError('from_opgraph: nid_map store `(bond, index)` not found')
+    if lvar is not None:
+        # the bond variable may itself be defined from the length of the label list inside the layer loop
+        ldefs = [n for n in ast.walk(loop) if isinstance(n, ast.Assign) and len(n.targets) == 1 and
+                 norm(n.targets[0]) == lvar]
+        incs_ = [n for n in ast.walk(loop) if isinstance(n, ast.AugAssign) and norm(n.target) == lvar]
+        if len(ldefs) == 1 and not incs_ and 'len(' in norm(ldefs[0].value):
+            import copy as _c
+            store = _c.deepcopy(store)
+            store.value.elts[0] = _c.deepcopy(ldefs[0].value)
+            ast.copy_location(store, ldefs[0])
+            ast.fix_missing_locations(store)
+            # position of the definition decides how many appends precede it
+            store._pos_stmt = ldefs[0]
+            lvar = None
     if lvar is None:
         # bond index written as len(<list>) + c: the list must grow once per layer; the value must be the layer index
         from ..affine import try_affine
@@ -250,7 +264,8 @@ def rule_R3(chk, repo, rid='C05.R3'):
             for s_ in before_loop:
                 if isinstance(s_, ast.Assign) and norm(s_.targets[0]) == X and isinstance(s_.value, ast.List):
                     n0 += len(s_.value.elts)
-            pos_store = [k_ for k_, s_ in enumerate(loop.body) if any(x is store for x in ast.walk(s_))][0]
+            anchor = getattr(store, '_pos_stmt', store)
+            pos_store = [k_ for k_, s_ in enumerate(loop.body) if any(x is anchor for x in ast.walk(s_))][0]
             in_loop = appends(loop.body)
             k_before = len(appends(loop.body[:pos_store]))
             want = 1 - n0 - k_before
@@ -259,10 +274,14 @@ def rule_R3(chk, repo, rid='C05.R3'):
                       f'({k_before} before the store); the layer index needs the offset {want:+d}')
         chk.ob(rid, where(repo, fi, store), 'nid_map records the bond index of the layer (first layer after the start node is '
                'bond 1)', ok_b, detail, key=f'{rid}|{fi.qual}|bond-index')
-        chk.ob(rid, where(repo, fi, fi.node), 'start node is mapped to (0, 0)',
-               any(isinstance(n_, ast.Assign) and any(isinstance(t, ast.Subscript) and norm(t.value) == 'nid_map' and
-                   'nid_terminal[0]' in norm(t.slice) for t in n_.targets) and norm(n_.value) == '(0, 0)'
-                   for n_ in ast.walk(fi.node)), '', key=f'{rid}|{fi.qual}|start')
+        start_sub = any(isinstance(n_, ast.Assign) and any(isinstance(t, ast.Subscript) and norm(t.value) == 'nid_map' and
+                        'nid_terminal[0]' in norm(t.slice) for t in n_.targets) and norm(n_.value) == '(0, 0)'
+                        for n_ in ast.walk(fi.node))
+        start_lit = any(isinstance(n_, ast.Assign) and norm(n_.targets[0]) == 'nid_map' and isinstance(n_.value, ast.Dict) and
+                        len(n_.value.keys) == 1 and 'nid_terminal[0]' in norm(n_.value.keys[0]) and
+                        norm(n_.value.values[0]) == '(0, 0)' for n_ in ast.walk(fi.node))
+        chk.ob(rid, where(repo, fi, fi.node), 'start node is mapped to (0, 0)', start_sub or start_lit, '',
+               key=f'{rid}|{fi.qual}|start')
         chk.floor(rid, len(uses), 5)
         return
     incs = [(pos, n) for pos, s in enumerate(loop.body) for n in ast.walk(s)
@@ -545,8 +564,13 @@ def lockstep(chk, repo, rid, fi, names, call):
                (f'; `{norm(rebound[0])[:60]}` lies between them' if rebound else ''), key=f'{rid}|{fi.qual}|{"+".join(names)}|init')
         n += 1
     else:
-        chk.ob(rid, w, f'{fi.name}: {label} are initialised by list comprehensions', False,
-               f'initialisations found for {sorted(inits)}', key=f'{rid}|{fi.qual}|{"+".join(names)}|init')
+        # the other spelling: both start empty and are filled by one loop (its block is judged below like every other)
+        empties = {s.targets[0].id for s in fi.node.body if isinstance(s, ast.Assign) and len(s.targets) == 1 and
+                   isinstance(s.targets[0], ast.Name) and s.targets[0].id in names and isinstance(s.value, ast.List) and
+                   not s.value.elts}
+        chk.ob(rid, w, f'{fi.name}: {label} are initialised together (comprehensions over one sequence, or both empty and '
+               f'filled by one loop)', empties == set(names), f'comprehensions for {sorted(inits)}, empty lists for {sorted(empties)}',
+               key=f'{rid}|{fi.qual}|{"+".join(names)}|init')
         n += 1
     # (2) resets and extensions per statement block
     k = 0
